@@ -40,7 +40,11 @@ def run(ctx):
     S2 = rep.rule('C06.R2', 'only successful reloads write (shared with C06)', floor=6)
     S3 = rep.rule('C09.R3', 'failed reload leaves the graph untouched (shared with C09)', floor=2)
     S4 = rep.rule('C10.R8', 'AssetMap::insert runs on_insert (the registration) whenever the entry was stored, and only then (shared with C10)', floor=2)
+    S5 = rep.rule('C09.R1', 'a nested load gives the recorder back to the load around it: what that load reads afterwards is still recorded (CellGuard restores the previous recorder; shared with C09)', floor=5)
     for cfg, F in ctx.hr_cfgs():
+        from c09 import r1 as recorder_restored
+        recorder_restored(S5, cfg, F)
+        S5.finish_cfg(cfg)
         r1(R1, cfg, F)
         r2(R2, cfg, F)
         r3(R3, cfg, F)
@@ -385,6 +389,12 @@ def r4(R4, cfg, F):
                 and c.callee.name in ('remove', 'remove_entry', 'retain', 'drain', 'extract_if')
             onentry = bool(re.search(r'hash_map::OccupiedEntry<.*hot_reloading::records::Dependency, hot_reloading::dependencies::GraphNode', ty)) \
                 and c.callee.name in ('remove', 'remove_entry')
+            if onmap and fb.path == D + 'DepsGraph::remove_asset' and c.callee.name in ('remove', 'remove_entry') and len(c.args) > 1:
+                # the node of the asset that is being removed from the cache (the function's own key) is not a cached asset
+                # any more: deleting it instead of keeping it with typ = None loses nothing
+                dp = common.value_built_from(fb, c.args[1], at=c.bb)
+                if dp == ['arg2']:
+                    continue
             if onmap or onentry:
                 nrem += 1
                 R4.bad(cfg, fb.path, 'graph-node-deleted', '`%s` deletes a node of the dependency graph: the node may be an asset that is still cached and reloadable, '
